@@ -17,7 +17,7 @@
      report_after S rs pre now   the output of a report instant that follows history `pre` *)
 From Coq Require Import ZArith List Bool Lia.
 From AV Require Import Lib.Bytes Gen.Utils Gen.RtpConst Model.Stats
-  Proof.StatsP Proof.StatsRunP Proof.StatsMainP Proof.StatsShiftP.
+  Proof.StatsP Proof.StatsRunP Proof.StatsMainP Proof.StatsShiftP Proof.StatsOldP.
 Import ListNotations.
 Local Open Scope Z_scope.
 
@@ -58,6 +58,14 @@ Theorem C18_counts_unwrapped : forall h n0 ns,
   first_seq h + fwd h = n0 mod 65536 + (max_from n0 ns - n0).
 Proof. exact fwd_unwrapped. Qed.
 Print Assumptions C18_counts_unwrapped.
+
+(* ... and under the same hypothesis the "in-order" packets (those the jitter recurrence
+   runs over) are exactly the packets whose true number exceeds every earlier one. *)
+Theorem C18_inorder_unwrapped : forall h n0 ns,
+  map p_seq h = map (fun n => n mod 65536) (n0 :: ns) -> within_window n0 ns ->
+  inorder h = match h with [] => [] | p :: l => p :: newmax_from n0 ns l end.
+Proof. exact inorder_unwrapped. Qed.
+Print Assumptions C18_inorder_unwrapped.
 
 (* ---- the whole report --------------------------------------------------------------- *)
 (* Every report generated after a history `pre` carries exactly the reference figures:
@@ -136,6 +144,44 @@ Proof.
 Qed.
 Print Assumptions C18_fits.
 
+(* ---- T+: the figures never run backwards ----------------------------------------------- *)
+(* As the history grows, the extended highest sequence number (before its reduction mod
+   2^32), hence packets_expected, and the packet count never decrease: consecutive reports
+   cannot show the highest sequence number jumping back (what the unrepaired code did at
+   every wrap). *)
+Theorem C18_monotone : forall pre more,
+  pkts pre <> [] ->
+  first_seq (pkts (pre ++ more)) = first_seq (pkts pre) /\
+  fwd (pkts pre) <= fwd (pkts (pre ++ more)) /\
+  count (pkts pre) <= count (pkts (pre ++ more)).
+Proof. exact fwd_monotone. Qed.
+Print Assumptions C18_monotone.
+
+(* ---- the unrepaired code violated the statement (witnesses replayed on the implementation,
+   corpus/C18.jsonl) ------------------------------------------------------------------------ *)
+Theorem C18_highest_refuted_before_fix :
+  exists evs i b,
+    Forall ev_ok evs /\
+    last (snd (run_old 1234 1 recv0 (evs ++ [Report 0]))) ONone = OReport i b /\
+    ri_highest i = 1 /\ (first_seq (pkts evs) + fwd (pkts evs)) mod 4294967296 = 65537.
+Proof. exact highest_refuted_before_fix. Qed.
+Print Assumptions C18_highest_refuted_before_fix.
+
+Theorem C18_jitter_refuted_before_fix :
+  exists evs s,
+    Forall ev_ok evs /\ stream (fst (run_old 1234 1 recv0 evs)) = Some s /\
+    jitter s = 268435456 /\ jitter_ref (pkts evs) / 16 = 0.
+Proof. exact jitter_refuted_before_fix. Qed.
+Print Assumptions C18_jitter_refuted_before_fix.
+
+Theorem C18_fits_refuted_before_fix :
+  exists evs i,
+    Forall ev_ok evs /\
+    last (snd (run_old 1234 1 recv0 (evs ++ [Report 0]))) ONone = OReport i Crash /\
+    4294967296 <= ri_jitter i.
+Proof. exact fits_refuted_before_fix. Qed.
+Print Assumptions C18_fits_refuted_before_fix.
+
 (* ---- C17: independence of the sequence-number and timestamp origins ---------------------- *)
 (* Add any d16 (mod 2^16) to every sequence number and any d32 (mod 2^32) to every RTP
    timestamp of a history: every probe and every report is unchanged -- packets_received,
@@ -149,6 +195,13 @@ Theorem stats_shift_invariant : forall S rs d16 d32 evs,
           (snd (run S rs recv0 (map (shift_ev d16 d32) evs))).
 Proof. exact shift_main. Qed.
 Print Assumptions stats_shift_invariant.
+
+(* ... where that move is d16 mod 2^16, or that minus 2^16 when the first number wraps *)
+Theorem stats_shift_amount : forall d16 h,
+  Forall (fun p => 0 <= p_seq p < 65536) h -> h <> [] ->
+  shift_of d16 h = d16 mod 65536 \/ shift_of d16 h = d16 mod 65536 - 65536.
+Proof. exact shift_of_values. Qed.
+Print Assumptions stats_shift_amount.
 
 (* ---- non-vacuity ---------------------------------------------------------------------- *)
 (* sequence wrap (65533, 65534, [65535 and 0 lost], 1, 2, duplicate 1), timestamp wrap,
